@@ -30,6 +30,7 @@ package sm2
 //@   modifies everything
 
 //@ func parseCiphertext property C13,C07
+//@   nullable opts
 //@   requires c != nil && c.curve != nil && c.newPoint != nil
 //@   ensures err == nil ==> len(result1) <= len(ciphertext) && result0 != nil
 //@   fnspec newPoint: std:pointCreator
@@ -37,7 +38,14 @@ package sm2
 //@   modifies everything
 
 // the all-zero test of step B4 is on t = KDF(x2 || y2, klen), the value msg holds at that point
+//@ func decrypt property C13,C07
+//@   requires priv != nil && len(ciphertext) <= 4000000000
+//@   nullable opts
+//@   heapnonnil
+//@   modifies everything
+
 //@ func decryptSM2EC property C13,C07
+//@   nullable opts
 //@   requires c != nil && c.curve != nil && c.newPoint != nil && priv != nil && len(ciphertext) <= 4000000000
 //@   assert before call ConstantTimeAllZero#1: sameslice(arg0, msg)
 //@   inlinecall sm3.New
@@ -74,12 +82,13 @@ package sm2
 //@   modifies everything
 
 //@ func decryptLegacy property C13,C07
+//@   nullable opts
 //@   requires priv != nil && priv.Curve != nil && 0 < len(ciphertext) && len(ciphertext) <= 4000000000
 //@   heapnonnil
 //@   modifies everything
 
 //@ func ParseEnvelopedPrivateKey property C13,C14
-//@   requires priv != nil
+//@   requires priv != nil && len(enveloped) <= 4000000000
 //@   heapnonnil
 //@   modifies everything
 
@@ -100,3 +109,19 @@ package sm2
 //@   inlinecall sm3.New
 //@   heapnonnil
 //@   modifies everything
+
+// ---- key constructors over caller-supplied bytes
+//@ func (*sm2Curve).pointToAffine property C13
+//@   requires curve != nil && curve.curve != nil && CURVEBITS(id(curve.curve)) == 256 && p != nil
+//@   ensures err == nil ==> x != nil && y != nil
+//@   modifies nothing
+
+//@ func NewPublicKey property C13,C14
+//@   ensures err == nil ==> result0 != nil
+//@   fnspec newPoint: std:pointCreator
+//@   modifies nothing
+
+//@ func NewPrivateKey property C13,C14
+//@   ensures err == nil ==> result0 != nil
+//@   fnspec newPoint: std:pointCreator
+//@   modifies nothing
